@@ -4,6 +4,7 @@ import (
 	"fmt"
 	"go/constant"
 	"go/token"
+	"go/types"
 	"strings"
 
 	"golang.org/x/tools/go/ssa"
@@ -91,7 +92,7 @@ func runC15(c *Ctx) {
 	c.Rule("C15.E", "hex/text codec agreement and buffer discipline of WebsocketNetConn; sockets are closed orderly (= C16.A)", 10)
 	ruleNoAbortiveLinger(c, p, "C15.E")
 	c.Rule("C15.P", "two copy directions over the same pair, WaitGroup pairing", 4)
-	c.Rule("C15.H", "pass-through identity and streaming-path agreement", 6)
+	c.Rule("C15.H", "pass-through identity and streaming-path agreement; h2c accepted unconditionally", 7)
 	T := "(*" + bridgeConn + ".WebsocketNetConn)"
 	_ = T
 
@@ -280,7 +281,7 @@ func runC15(c *Ctx) {
 		total := 0
 		for _, a := range adds {
 			n, isC := ConstInt(PArgs(CallOf(a))[1])
-			if !isC || n < 1 || a.Parent() != bs.Fn || (InLoop(a.Block()) && !InLoop(bs.Fn.Blocks[0])) || (okwg && !Dominates(a, waits[0])) {
+			if !isC || n < 1 || (a.Parent() != bs.Fn && !helperCalledFrom(a.Parent(), bs.Fn)) || (InLoop(a.Block()) && !InLoop(bs.Fn.Blocks[0])) || (okwg && !Dominates(a, waits[0])) {
 				okwg = false
 			}
 			total += int(n)
@@ -401,6 +402,58 @@ func runC15(c *Ctx) {
 		}
 		c.Check("C15.H", "frontend:dials-after-accept", p, fm.Pos(), late == "" && dw > 0, "the websocket to the backend is dialled in the goroutine of an accepted client connection", "a websocket to the backend is dialled at "+late+" outside the handling of an accepted client (ahead of time / in a pool): a connection that dies while parked is handed to a client, whose bytes never arrive")
 	}
+	// the bridge backend serves, on every path through main, the bridge handler behind the h2c
+	// wrapper: which protocols it accepts from its callers does not depend on a flag, so a
+	// non-bridge request that arrives as clear-text HTTP/2 is still passed through
+	if bm := c.need(p, "C15.H", "utils/tcpbridge/tcp-bridge-backend.main"); bm != nil {
+		var serve []ssa.Instruction
+		for _, fn := range p.AllFuncsIn("utils/tcpbridge/tcp-bridge-backend") {
+			serve = append(serve, Calls(fn, "net/http.ListenAndServe", "net/http.Serve", "(*net/http.Server).ListenAndServe", "(*net/http.Server).Serve")...)
+		}
+		bad := ""
+		if len(serve) != 1 {
+			bad = fmt.Sprintf("%d serve calls", len(serve))
+		} else {
+			var hv ssa.Value
+			switch CalleeName(CallOf(serve[0])) {
+			case "net/http.ListenAndServe", "net/http.Serve":
+				hv = PArgs(CallOf(serve[0]))[1]
+			default:
+				for _, r := range Roots(PArgs(CallOf(serve[0]))[0]) {
+					if v, ok := LiteralField(r, "Handler"); ok {
+						hv = v
+					}
+				}
+			}
+			if hv == nil {
+				bad = "the served handler cannot be identified"
+			} else {
+				for _, r := range Roots(hv) {
+					if mi, ok := r.(*ssa.MakeInterface); ok {
+						r = mi.X
+					}
+					h2 := CallResult(r, 0, "golang.org/x/net/http2/h2c.NewHandler")
+					if h2 == nil {
+						bad = "on some path the served handler is " + PathOf(r) + ", not h2c.NewHandler(…)"
+						continue
+					}
+					inner := false
+					for _, ir := range Roots(PArgs(&h2.Call)[0]) {
+						if mi, ok := ir.(*ssa.MakeInterface); ok {
+							ir = mi.X
+						}
+						if CallResult(ir, 0, ModPath+"/utils/tcpbridge/connection.Handler") != nil {
+							inner = true
+						}
+					}
+					if !inner {
+						bad = "the h2c wrapper does not wrap connection.Handler's result"
+					}
+				}
+			}
+		}
+		c.Check("C15.H", "backend:h2c-accepted-on-every-path", p, bm.Pos(), bad == "", "the bridge backend serves h2c.NewHandler(connection.Handler(…)) whatever its flags say", "tcp-bridge-backend.main: "+bad+": clear-text HTTP/2 callers (an agent run with -force-http2, gRPC clients) are reset by the HTTP/1.1 server instead of being passed through to the backend port")
+	}
 }
 
 func streamingPathConst(p *Prog) string {
@@ -477,13 +530,14 @@ func closesConn(i ssa.Instruction, want map[ssa.Value]bool, depth int) bool {
 func runC16(c *Ctx) {
 	p := c.Progs["mod"]
 	c.Rule("C16.K", "completion of either copy direction closes the pair", 4)
-	c.Rule("C16.D", "every acquired connection is released on exit", 4)
+	c.Rule("C16.D", "every acquired connection is released on exit; Close of the bridge's connection type closes its transport", 5)
 	c.Rule("C16.A", "closing is orderly and cannot be blocked: no abortive-close socket option, Close never waits for a lock held across blocking I/O; no raw descriptor access; dial context not retained; dial bounded in time; no message-size limit that cuts a stream short (= C15.L)", 6)
 	c16Orderly(c, p)
 	ruleNoRawDescriptor(c, p, "C16.A")
 	ruleDialContextNotRetained(c, p, "C16.A")
 	ruleDialHandshakeBounded(c, p, "C16.A")
 	ruleNoReadLimit(c, p, "C16.A")
+	ruleBridgeConnCloseClosesTransport(c, p, "C16.D")
 	sites := bridgeSites(p)
 	if len(sites) < 2 {
 		c.Bad("C16.K", "bridging-functions", p, 0, fmt.Sprintf("found %d bridging functions (2 confirmed by hand)", len(sites)))
@@ -757,4 +811,61 @@ func ruleNoReadLimit(c *Ctx, p *Prog, rule string) {
 		}
 		c.Check(rule, "bridge:no-read-limit", p, posOf(lim), (len(lim) == 0 || wsegments) && ncalls >= 5, fmt.Sprintf("%d gorilla/websocket calls inspected in utils/tcpbridge, none sets a read limit", ncalls), fmt.Sprintf("a websocket read limit is set (%s) while WebsocketNetConn.Write still sends every Write as a single message of any length: one large write is rejected by the peer (close 1009) and the stream is cut", posStr(p, firstOf(lim))))
 	}
+}
+
+// ruleBridgeConnCloseClosesTransport: every close of a bridged connection in this code base is
+// a call of WebsocketNetConn.Close, so that method must release the transport: it is the Close
+// promoted from the embedded *websocket.Conn, or a method of the module in which every path
+// to a return closes that embedded connection. A "graceful" Close that only sends a close
+// frame and leaves the socket to a reader that may already have exited leaks the connection.
+func ruleBridgeConnCloseClosesTransport(c *Ctx, p *Prog, rule string) {
+	pk := p.ModPkgs[bridgeConn]
+	if pk == nil {
+		c.Unk(rule, "conn:Close-closes-the-transport", p, 0, "package "+bridgeConn+" not loaded")
+		return
+	}
+	obj, _ := pk.Types.Scope().Lookup("WebsocketNetConn").(*types.TypeName)
+	if obj == nil {
+		c.Unk(rule, "conn:Close-closes-the-transport", p, 0, "type WebsocketNetConn not found")
+		return
+	}
+	named := obj.Type().(*types.Named)
+	var own *ssa.Function
+	for i := 0; i < named.NumMethods(); i++ {
+		if m := named.Method(i); m.Name() == "Close" {
+			own = p.SSA.FuncValue(m)
+		}
+	}
+	if own == nil {
+		// promoted: the embedded connection must be the gorilla one
+		st, _ := named.Underlying().(*types.Struct)
+		emb := false
+		for i := 0; st != nil && i < st.NumFields(); i++ {
+			if f := st.Field(i); f.Embedded() && NamedType(f.Type()) == "github.com/gorilla/websocket.Conn" {
+				emb = true
+			}
+		}
+		c.Check(rule, "conn:Close-closes-the-transport", p, obj.Pos(), emb, "WebsocketNetConn.Close is the Close of the embedded *websocket.Conn: it closes the socket", "WebsocketNetConn neither defines Close nor embeds *websocket.Conn")
+		return
+	}
+	isClose := func(i ssa.Instruction) bool {
+		cc := CallOf(i)
+		if cc == nil {
+			return false
+		}
+		switch CalleeName(cc) {
+		case "(*github.com/gorilla/websocket.Conn).Close", "(net.Conn).Close", "(io.Closer).Close":
+			return strings.HasPrefix(PathOf(PArgs(cc)[0]), P(own, 0)+".")
+		}
+		return false
+	}
+	hit, _ := (&Walk{Target: IsReturn, Avoid: isClose, Local: true}).FromBlock(own.Blocks[0])
+	c.Check(rule, "conn:Close-closes-the-transport", p, own.Pos(), hit == nil, "every path through WebsocketNetConn.Close closes the embedded connection", "WebsocketNetConn.Close can return without closing the embedded websocket connection (return at "+instrPosStr(p, hit)+"): the bridge's deferred Close calls and closeBoth then leave the socket open — whenever the reader that was meant to release it has already exited, the bridged connection outlives both of its endpoints")
+}
+
+func instrPosStr(p *Prog, i ssa.Instruction) string {
+	if i == nil {
+		return "-"
+	}
+	return p.Pos(i.Pos())
 }
